@@ -273,6 +273,19 @@ structure WL where
 
 def beNat (bs : List Nat) : Nat := bs.foldl (fun acc b => acc * 256 + b) 0
 
+/-- `swimos_encoding::consume_bounded`: give the inner decoder at most `remaining` bytes of `src` (`decode_eof` when
+these are all the message still has, else `decode`), and put back what it did not take.  Result: inner decoder, buffer,
+bytes consumed, outcome. -/
+def consumeBounded (inner : Raw) (remaining : Nat) (src : List Nat) : Raw × List Nat × Nat × Out :=
+  let toSplit := min remaining src.length
+  let part := src.take toSplit
+  let tail := src.drop toSplit
+  let r : Raw × List Nat × Out :=
+    if remaining ≤ part.length then (match inner.decodeEofB part with | (rest, o) => ({}, rest, o))
+    else inner.decodeB part
+  let consumed := part.length - r.2.1.length
+  (r.1, (if remaining = consumed then tail else r.2.1 ++ tail), consumed, r.2.2)
+
 /-- One call of `decode` on the buffer `src`: new decoder, new buffer, result (`none` = `Ok(None)`).  The loop of the
 real method is unrolled through `fuel` (each iteration changes the state). -/
 def WL.decode : Nat → WL → List Nat → WL × List Nat × Out
@@ -283,23 +296,14 @@ def WL.decode : Nat → WL → List Nat → WL × List Nat × Out
       if src.length < 8 then (w, src, .none)
       else WL.decode fuel { w with state := .body (beNat (src.take 8)) } (src.drop 8)
     | .body remaining =>
-      -- `consume_bounded`
-      let toSplit := min remaining src.length
-      let part := src.take toSplit
-      let tail := src.drop toSplit
-      let eom := remaining ≤ part.length
-      let r : Raw × List Nat × Out :=
-        if eom then (match w.inner.decodeEofB part with | (rest, o) => ({}, rest, o))
-        else w.inner.decodeB part
-      let consumed := part.length - r.2.1.length
-      let src' := if remaining = consumed then tail else r.2.1 ++ tail
-      let remaining' := remaining - consumed
-      (match r.2.2 with
-       | .value v => WL.decode fuel { inner := r.1, state := .afterBody remaining' (.value v) } src'
-       | .none => ({ inner := r.1, state := .body remaining' }, src', .none)
-       | e =>
-         if remaining' ≤ src'.length then ({ inner := r.1, state := .header }, src'.drop remaining', e)
-         else WL.decode fuel { inner := r.1, state := .discarding (remaining' - src'.length) e } [])
+      (match consumeBounded w.inner remaining src with
+       | (inner', src', consumed, .value v) =>
+         WL.decode fuel { inner := inner', state := .afterBody (remaining - consumed) (.value v) } src'
+       | (inner', src', consumed, .none) => ({ inner := inner', state := .body (remaining - consumed) }, src', .none)
+       | (inner', src', consumed, e) =>
+         if remaining - consumed ≤ src'.length then
+           ({ inner := inner', state := .header }, src'.drop (remaining - consumed), e)
+         else WL.decode fuel { inner := inner', state := .discarding (remaining - consumed - src'.length) e } [])
     | .afterBody remaining v =>
       if remaining ≤ src.length then ({ w with state := .header }, src.drop remaining, v)
       else ({ w with state := .afterBody (remaining - src.length) v }, [], .none)
